@@ -140,6 +140,14 @@ std::vector<Item> dump_state(const Schedule& sched, std::size_t step, const Summ
             d.n(p + "prod.gas_target", c.gas_target, true); d.n(p + "prod.liquid_target", c.liquid_target, true);
             d.i(p + "prod.controls", c.production_controls);
         }
+        for (const auto ph : {Opm::Phase::WATER, Opm::Phase::GAS}) if (g.hasInjectionControl(ph)) {
+            const auto c = g.injectionControls(ph, st);
+            const std::string q2 = p + (ph == Opm::Phase::WATER ? "winj." : "ginj.");
+            d.s(q2 + "cmode", Group::InjectionCMode2String(c.cmode));
+            d.n(q2 + "surface_max_rate", c.surface_max_rate, true); d.n(q2 + "resv_max_rate", c.resv_max_rate, true);
+            d.n(q2 + "reinj_fraction", c.target_reinj_fraction, true); d.n(q2 + "void_fraction", c.target_void_fraction, true);
+            d.i(q2 + "controls", c.injection_controls);
+        }
     }
     // ---- well lists
     {
